@@ -60,6 +60,57 @@ func init() {
 	generators["C20"] = genC20
 	executors["race-run"] = execRaceRun
 	executors["cprng-reads"] = execCprngReads
+	// many goroutines hammering one generator: every keystream block (decrypted back to its
+	// counter value with the known key) is handed out exactly once and none is skipped
+	executors["cprng-contend"] = func(o Op) string {
+		var seed [32]byte
+		copy(seed[:], unhb(o["seed"]))
+		c := must(gabi.VerifNewCPRNG(&seed))
+		blk := must(aes.NewCipher(seed[:]))
+		n, reads := o.int("goroutines"), o.int("reads")
+		outs := make([][]byte, n)
+		var wg sync.WaitGroup
+		gate := make(chan struct{})
+		for i := 0; i < n; i++ {
+			wg.Add(1)
+			go func(i int) {
+				defer wg.Done()
+				<-gate
+				for r := 0; r < reads; r++ {
+					buf := make([]byte, 16*(1+(i+r)%4))
+					if m, err := c.Read(buf); err != nil || m != len(buf) {
+						return
+					}
+					outs[i] = append(outs[i], buf...)
+				}
+			}(i)
+		}
+		close(gate)
+		wg.Wait()
+		seen := map[uint64]bool{}
+		dup, total := 0, 0
+		var pt [16]byte
+		for _, out := range outs {
+			for off := 0; off+16 <= len(out); off += 16 {
+				blk.Decrypt(pt[:], out[off:off+16])
+				ctr := binary.LittleEndian.Uint64(pt[:8])
+				if seen[ctr] {
+					dup++
+				}
+				seen[ctr] = true
+				total++
+			}
+		}
+		if dup > 0 {
+			return fmt.Sprintf("shared-block %d of %d", dup, total)
+		}
+		for k := 0; k < total; k++ {
+			if !seen[uint64(k)] {
+				return fmt.Sprintf("skipped-block %d", k)
+			}
+		}
+		return "ok"
+	}
 	executors["cache-script"] = execCacheScript
 	executors["c20-child"] = execC20Child
 }
@@ -115,6 +166,14 @@ func genC20(g *Rng, tier string, emit func(Op)) {
 		}
 	}
 
+	for _, n := range []int{4, 16, 64} {
+		reads := 20000
+		if thorough {
+			reads = 200000
+		}
+		emit(Op{"op": "cprng-contend", "class": fmt.Sprintf("cprng-contend/g%d", n), "key": "cprng-trace", "label": "ok", "nomodel": true,
+			"seed": hb(g.bytes(32)), "goroutines": n, "reads": reads / n * 4})
+	}
 	// 2. cprng-reads: traces observed now (true parallelism), embedded.
 	nTraces := 9
 	if thorough {
